@@ -775,4 +775,9 @@ def r10_shared_containers_atomic(a, tier):
     return rep
 
 
-RULES = [r1_cache_key, r2_write_through, r3_inventory, r4_parse_is_readonly, r5_order_dependence, r6_shared_config, r7_publish_last, r8_config_values_not_mutated, r9_memoised_results_read_only, r10_shared_containers_atomic]
+def r11_per_call_state(a, tier):
+    from ..rules.common import per_call_state_ends_with_the_call
+    return per_call_state_ends_with_the_call(a, 'C10.R11')
+
+
+RULES = [r1_cache_key, r2_write_through, r3_inventory, r4_parse_is_readonly, r5_order_dependence, r6_shared_config, r7_publish_last, r8_config_values_not_mutated, r9_memoised_results_read_only, r10_shared_containers_atomic, r11_per_call_state]
